@@ -507,6 +507,10 @@ def c12(ctx):
         except Exception as e:  # noqa: BLE001
             if permitted_rejection((type(e).__name__, str(e))):
                 continue
+            if not (isinstance(e, ValueError) and "read-only" in str(e)):
+                # any other exception while stepping is a matter of C16 (runs to completion),
+                # not of parameter constancy; the write-into-a-read-only-array case is ours
+                continue
             viols.append(V("C12", "step-raises-" + type(e).__name__, sc, "stepping raises (possibly a write into a read-only parameter array)",
                            t=steps, error=(type(e).__name__, str(e)[:200]), z_cn=sc["soil"].get("kwargs", {}).get("z_cn")))
         nontriv += 1 if steps > 0 else 0
